@@ -76,6 +76,7 @@ class Harness:
         self.timeout = None
         self.solver = None
         self.mode = "O"           # "O" overlay crate, "S:<name>" single-module scratch crate under modes/<name>
+        self.foreign = None       # owning property id when this harness is re-used by another property (C29)
 
     @property
     def full(self):
@@ -206,6 +207,26 @@ def load_property(pid):
         target, modname, text, hs = parse_harness_file(os.path.join(d, fn))
         files.append((target, modname, text, os.path.join(d, fn)))
         harnesses.extend(hs)
+    # reuse.txt: "<ID> <harness fn> [tiers]" lines -- harnesses of other properties re-run for THIS property, where
+    # only Kani's own safety checks count (their functional assertions belong to the owning property)
+    reuse = os.path.join(d, "reuse.txt")
+    if os.path.exists(reuse):
+        wanted = {}
+        for line in open(reuse):
+            line = line.split("#")[0].split()
+            if len(line) >= 2:
+                wanted.setdefault(line[0], {})[line[1]] = line[2].split(",") if len(line) > 2 else None
+        for oid, names in wanted.items():
+            ofiles, ohs = load_property(oid)
+            for h in ohs:
+                if h.name in names and not h.finding:
+                    h.foreign = oid
+                    if names[h.name]:
+                        h.tiers = names[h.name]
+                    harnesses.append(h)
+                    for f in ofiles:
+                        if f[3] == h.file and f not in files:
+                            files.append(f)
     return files, harnesses
 
 
@@ -344,6 +365,8 @@ def gen_mode_rgp(cwd):
     # the recursive List(Vec<ScalarValue>, ..) variant is never met by row_group_pruning.rs; dropping it keeps the
     # derived Clone/Drop glue of literals non-recursive (measured: it dominated symbolic execution)
     sv = re.sub(r"(?m)^\s*(///[^\n]*\n\s*)*List\([^\n]*\),\n", "", sv)
+    # explicit tag bytes (layout only, semantics unchanged): lets CBMC constant-propagate the variant of a literal
+    sv = sv.replace("pub enum ScalarValue", "#[repr(u8)]\npub enum ScalarValue")
     parts = [
         sv,
         _extract_item(le, r"^pub enum BinaryOp\s*\{"),
@@ -389,8 +412,84 @@ def shquote(s):
     return "'" + s.replace("'", "'\\''") + "'"
 
 
+def resolve_unwindset(h, build, workdir):
+    """`// @unwindset <substring of pretty function name>:<N> ...` -> CBMC loop ids. Kani only offers one global
+    unwinding bound per harness; nested library loops (memchr inside split inside the parser's own loop) then
+    multiply. The ids are read from the harness's goto binary (goto-instrument --show-loops), never hard-coded."""
+    specs = []
+    for line in h.meta.get("unwindset", []):
+        for tok in line.split():
+            pat, _, n = tok.rpartition(":")
+            specs.append((pat, int(n)))
+    cmd = ["cargo", "kani"] + build.lib_flag + ["-Z", "stubbing", "-Z", "unstable-options", "--only-codegen",
+           "--target-dir", build.kani_target, "--exact", "--harness", h.full]
+    logf = os.path.join(workdir, f"codegen-{h.name}.log")
+    run_capped(cmd, build.cwd, TIER_CAPS["thorough"][1], 1500, logf)
+    cands = []
+    for root, _dirs, fns in os.walk(os.path.join(build.kani_target, "kani")):
+        for fn in fns:
+            if fn.endswith(".out") and not fn.endswith(".symtab.out") and fn.endswith(h.name + ".out"):
+                cands.append(os.path.join(root, fn))
+    if not cands:
+        raise Inconclusive(f"{h.name}: no goto binary found to resolve @unwindset (see {logf})")
+    gb = max(cands, key=os.path.getmtime)
+    out = subprocess.run(["goto-instrument", "--show-loops", gb], capture_output=True, text=True).stdout
+    ids = []
+    lines = out.splitlines()
+    for i, l in enumerate(lines):
+        m = re.match(r"^Loop (\S+):$", l)
+        if m and i + 1 < len(lines):
+            ids.append((m.group(1), lines[i + 1]))
+    chosen = []
+    for pat, n in specs:
+        if pat.endswith("@outer"):
+            # the loop of that function that comes first in the source (its outermost loop), whatever CBMC numbers it
+            fn = pat[:-len("@outer")]
+            cand = []
+            for lid, desc in ids:
+                lm = re.search(r" line (\d+) ", desc)
+                if fn in desc and lm:
+                    cand.append((int(lm.group(1)), lid))
+            hit = [min(cand)[1]] if cand else []
+        elif re.search(r"\.\d+$", pat):
+            hit = [lid for lid, desc in ids if lid.endswith(pat)]      # exact loop, e.g. eval_chunk.0
+        else:
+            hit = [lid for lid, desc in ids if pat in desc or pat in lid]
+        if not hit:
+            raise Inconclusive(f"{h.name}: @unwindset pattern `{pat}` matches no loop of the current code")
+        chosen += [f"{lid}:{n}" for lid in hit]
+    return ",".join(chosen)
+
+
 def kani_verify(harnesses, tier, workdir, build=None):
     build = build or Build("O")
+    special = [h for h in harnesses if h.meta.get("unwindset")]
+    if special and len(harnesses) > 1:
+        # harnesses with per-loop bounds need their own invocation (--cbmc-args applies to the whole run)
+        plain = [h for h in harnesses if not h.meta.get("unwindset")]
+        merged = {"verification_results": {"results": []}, "cbmc": []}
+        rc_all, logs = 0, []
+        groups = ([plain] if plain else []) + [[h] for h in special]
+        for gi, g in enumerate(groups):
+            rc, oj, lf = kani_verify(g, tier, os.path.join(workdir, f"g{gi}"), build)
+            rc_all = rc_all or rc
+            logs.append(lf)
+            if os.path.exists(oj):
+                try:
+                    d = json.load(open(oj))
+                    merged["verification_results"]["results"] += d.get("verification_results", {}).get("results", [])
+                    merged["cbmc"] += d.get("cbmc", [])
+                except Exception:
+                    pass
+        tag = "" if build.mode == "O" else "-" + build.name
+        out_json = os.path.join(workdir, f"kani{tag}.json")
+        json.dump(merged, open(out_json, "w"))
+        logf = os.path.join(workdir, f"kani{tag}.log")
+        with open(logf, "w") as f:
+            for lf in logs:
+                f.write(open(lf, errors="replace").read())
+        return rc_all, out_json, logf
+    os.makedirs(workdir, exist_ok=True)
     per_to, mem = TIER_CAPS[tier]
     per_to = max([per_to] + [h.timeout for h in harnesses if h.timeout])
     tag = "" if build.mode == "O" else "-" + build.name
@@ -403,6 +502,8 @@ def kani_verify(harnesses, tier, workdir, build=None):
            "-j", str(max(1, min(JOBS, len(harnesses))))]
     for h in harnesses:
         cmd += ["--harness", h.full]
+    if special:
+        cmd += ["--cbmc-args", "--unwindset", resolve_unwindset(special[0], build, workdir)]
     logf = os.path.join(workdir, f"kani{tag}.log")
     waves = (len(harnesses) + JOBS - 1) // JOBS
     rc = run_capped(cmd, build.cwd, mem, 900 + per_to * waves + 120, logf)
@@ -448,6 +549,9 @@ def classify(h, res, stats, logtext):
         r["reason"] = "unwinding assertion failed: the stated loop bound does not cover the current code"
         return r
     real_fail = [c for c in r["failed"] if c.get("category") not in ("unsupported_construct", "unsupported")]
+    if h.foreign:
+        # re-used harness: the owning property's functional assertions are not this property's business
+        real_fail = [c for c in real_fail if not re.match(r"^C\d+\.", check_identity(c))]
     if real_fail:
         r["status"] = "counterexample"
         r["failed"] = real_fail
